@@ -569,9 +569,15 @@ func runC16(c *Ctx) {
 		buildMsg := w.Func("server", "", "buildMsg")
 		want := map[string]int64{"ErrDupeTCPConnection": stunConst(w, "CodeConnAlreadyExists"), "ErrTCPConnectionTimeoutOrFailure": stunConst(w, "CodeConnTimeoutOrFailure")}
 		seen := map[string]bool{}
-		w.eachInstr(h, func(in ssa.Instruction) {
+		w.eachInstrDeep(h, func(in ssa.Instruction) {
 			call, ok := in.(*ssa.Call)
-			if !ok || call.Call.StaticCallee() != buildMsg {
+			if !ok {
+				return
+			}
+			// the response is built here, or by a response helper called here
+			// (r.reject(err, code)): the error codes the call can put into a message
+			codes, builds := w.errorCodesAt(call, buildMsg, 0)
+			if !builds {
 				return
 			}
 			for _, f := range w.factsAt(in) {
@@ -593,7 +599,13 @@ func runC16(c *Ctx) {
 				// innermost errors.Is fact decides: skip when another wanted errors.Is is also true-known (nested); not the case here
 				seen[g.Name()] = true
 				c.Anchor("C16.7", g.Name())
-				if errorCodeIs(w, call, code) {
+				hasCode := false
+				for _, k := range codes {
+					if k == code {
+						hasCode = true
+					}
+				}
+				if hasCode && len(codes) == 1 {
 					c.OK("C16.7", fname(h), g.Name(), w.instrPos(in), fmt.Sprintf("answered %d", code))
 				} else {
 					c.Bad("C16.7", fname(h), g.Name(), w.instrPos(in), fmt.Sprintf("%s is not answered with error code %d", g.Name(), code))
